@@ -123,24 +123,24 @@ theorem overlap_false_disjoint {a b : Iv} (h : overlap a b = false) (x : Int) :
 def splitPieces (ra rb : Iv) : List Iv :=
   (if edgeCmp ra.lo rb.lo < 0 then
       match rb.lo with
-      | .val v => if v == INTMAX_MIN then [] else [⟨ra.lo, .val (v - 1)⟩]
+      | .val v => if v == ASN_INTEGER_MIN then [] else [⟨ra.lo, .val (v - 1)⟩]
       | e => [⟨ra.lo, e⟩]
     else []) ++
   (if edgeCmp ra.hi rb.hi > 0 then
       match rb.hi with
-      | .val v => if v == INTMAX_MAX then [] else [⟨.val (v + 1), ra.hi⟩]
+      | .val v => if v == ASN_INTEGER_MAX then [] else [⟨.val (v + 1), ra.hi⟩]
       | e => [⟨e, ra.hi⟩]
     else []) ++
   [⟨if edgeCmp ra.lo rb.lo < 0 then rb.lo else ra.lo, if edgeCmp ra.hi rb.hi > 0 then rb.hi else ra.hi⟩]
 
-/-- edges stay inside the 64-bit world so that the INTMAX tests of `_range_split` never fire -/
+/-- edges stay strictly inside the `asn1c_integer_t` range so that the two limit tests of `_range_split` never fire -/
 def Iv.bnd (i : Iv) : Prop :=
-  (∀ v, i.lo = .val v → INTMAX_MIN < v ∧ v ≤ INTMAX_MAX) ∧ (∀ v, i.hi = .val v → INTMAX_MIN ≤ v ∧ v < INTMAX_MAX)
+  (∀ v, i.lo = .val v → ASN_INTEGER_MIN < v ∧ v ≤ ASN_INTEGER_MAX) ∧ (∀ v, i.hi = .val v → ASN_INTEGER_MIN ≤ v ∧ v < ASN_INTEGER_MAX)
 
 def predE : Edge → Edge | .val v => .val (v - 1) | e => e
 def succE : Edge → Edge | .val v => .val (v + 1) | e => e
 
-/-- `splitPieces` when the INTMAX tests do not fire -/
+/-- `splitPieces` when the limit tests do not fire -/
 def splitPieces' (ra rb : Iv) : List Iv :=
   (if edgeCmp ra.lo rb.lo < 0 then [⟨ra.lo, predE rb.lo⟩] else []) ++
   (if edgeCmp ra.hi rb.hi > 0 then [⟨succE rb.hi, ra.hi⟩] else []) ++
@@ -149,9 +149,9 @@ def splitPieces' (ra rb : Iv) : List Iv :=
 theorem splitPieces_eq {x w : Iv} (hb : w.bnd) : splitPieces x w = splitPieces' x w := by
   obtain ⟨wl, wh⟩ := w
   obtain ⟨hb1, hb2⟩ := hb
-  have e1 : ∀ v, wl = .val v → (v == INTMAX_MIN) = false := by
+  have e1 : ∀ v, wl = .val v → (v == ASN_INTEGER_MIN) = false := by
     intro v hv; have := hb1 v hv; simp; omega
-  have e2 : ∀ v, wh = .val v → (v == INTMAX_MAX) = false := by
+  have e2 : ∀ v, wh = .val v → (v == ASN_INTEGER_MAX) = false := by
     intro v hv; have := hb2 v hv; simp; omega
   cases wl <;> cases wh <;> simp_all [splitPieces, splitPieces', predE, succE]
 
@@ -176,7 +176,7 @@ theorem splitPieces'_bnd {x w : Iv} (hx : x.wf) (hw : w.wf) (hbx : x.bnd) (hbw :
     ∀ p ∈ splitPieces' x w, p.bnd := by
   obtain ⟨xl, xh⟩ := x; obtain ⟨wl, wh⟩ := w
   intro p hp
-  simp only [Iv.bnd, INTMAX_MIN, INTMAX_MAX] at hbx hbw ⊢
+  simp only [Iv.bnd, ASN_INTEGER_MIN, ASN_INTEGER_MAX] at hbx hbw ⊢
   cases xl <;> cases xh <;> cases wl <;> cases wh <;>
     simp_all [splitPieces', Iv.wf, overlap, predE, succE] <;>
     (try split_ifs at hp) <;> (try simp_all) <;> (try (rcases hp with hp | hp | hp)) <;> (try subst hp) <;> (try simp_all) <;> (try omega)
@@ -503,7 +503,7 @@ theorem mergeOv_spec {a b : Iv} (ha : a.wf ∧ a.bnd) (hb : b.wf ∧ b.bnd) (ho 
     (∀ y, (mergeOv a b).mem y = (a.mem y || b.mem y)) ∧ (mergeOv a b).wf ∧ (mergeOv a b).bnd := by
   obtain ⟨al, ah⟩ := a; obtain ⟨bl, bh⟩ := b
   obtain ⟨ha1, ha2⟩ := ha; obtain ⟨hb1, hb2⟩ := hb
-  simp only [Iv.bnd, INTMAX_MIN, INTMAX_MAX] at ha2 hb2 ⊢
+  simp only [Iv.bnd, ASN_INTEGER_MIN, ASN_INTEGER_MAX] at ha2 hb2 ⊢
   refine ⟨fun y => ?_, ?_, ?_⟩ <;>
   cases al <;> cases ah <;> cases bl <;> cases bh <;>
     simp_all [mergeOv, Iv.mem, Iv.wf, overlap] <;>
@@ -513,7 +513,7 @@ theorem mergeAdj_spec {a b : Iv} (ha : a.wf ∧ a.bnd) (hb : b.wf ∧ b.bnd) (ha
     (∀ y, (⟨a.lo, b.hi⟩ : Iv).mem y = (a.mem y || b.mem y)) ∧ (⟨a.lo, b.hi⟩ : Iv).wf ∧ (⟨a.lo, b.hi⟩ : Iv).bnd := by
   obtain ⟨al, ah⟩ := a; obtain ⟨bl, bh⟩ := b
   obtain ⟨ha1, ha2⟩ := ha; obtain ⟨hb1, hb2⟩ := hb
-  simp only [Iv.bnd, INTMAX_MIN, INTMAX_MAX] at ha2 hb2 ⊢
+  simp only [Iv.bnd, ASN_INTEGER_MIN, ASN_INTEGER_MAX] at ha2 hb2 ⊢
   refine ⟨fun y => ?_, ?_, ?_⟩ <;>
   cases al <;> cases ah <;> cases bl <;> cases bh <;>
     simp_all [Iv.mem, Iv.wf, adjacent] <;>
@@ -892,6 +892,118 @@ theorem inter_canon {range wth r : Range} {A B : Int → Bool} {strict isOer : B
   · rw [c7, i7]
   · rw [c10, i8]
   · rw [c9, i9]
+
+
+/-- `_range_canonicalize` never touches the flags -/
+theorem canonicalize_flags (r : Range) :
+    (canonicalize r).empty = r.empty ∧ (canonicalize r).ext = r.ext ∧ (canonicalize r).incompat = r.incompat ∧
+    (canonicalize r).notOER = r.notOER ∧ (canonicalize r).notPER = r.notPER := by
+  unfold canonicalize
+  split
+  · split <;> simp
+  · dsimp only
+    split <;> simp
+
+/-- the set is empty and the range says so (`empty_constraint`; its edges and elements mean nothing) -/
+def EmptyR (r : Range) (S : Int → Bool) : Prop := (∀ y, S y = false) ∧ r.empty = true ∧ r.incompat = false
+
+/-- `r` represents `S`: canonical form of a non-empty set, or flagged empty -/
+def ReprE (r : Range) (S : Int → Bool) : Prop := Repr r S ∨ EmptyR r S
+
+theorem ReprE.incompat {r : Range} {S : Int → Bool} (h : ReprE r S) : r.incompat = false := by
+  rcases h with h | h
+  · exact h.incompat
+  · exact h.2.2
+
+theorem Repr.nonempty {r : Range} {S : Int → Bool} (h : Repr r S) : ∃ y, S y = true := by
+  obtain ⟨hd, t, e1, _, _⟩ := h.ends
+  obtain ⟨y, hy⟩ := Iv.wf_nonempty (h.good hd (by rw [e1]; simp)).1
+  exact ⟨y, by rw [← h.den y, e1]; simp [hy]⟩
+
+theorem ReprE.repr {r : Range} {S : Int → Bool} (h : ReprE r S) (hne : ∃ y, S y = true) : Repr r S := by
+  rcases h with h | h
+  · exact h
+  · obtain ⟨y, hy⟩ := hne; rw [h.1 y] at hy; cases hy
+
+theorem ReprE.empty_iff {r : Range} {S : Int → Bool} (h : ReprE r S) : r.empty = true ↔ ∀ y, S y = false := by
+  rcases h with h | h
+  · constructor
+    · intro he; rw [h.empty] at he; cases he
+    · intro hs; obtain ⟨y, hy⟩ := h.nonempty; rw [hs y] at hy; cases hy
+  · exact ⟨fun _ => h.1, fun _ => h.2.1⟩
+
+/-- `_range_intersection` with an operand flagged empty: "No use in intersecting empty constraints" -/
+theorem intersection_empty {range wth r : Range} {strict isOer : Bool}
+    (he : range.empty = true ∨ wth.empty = true)
+    (h : intersection range wth strict isOer = .ok r) :
+    r.empty = true ∧ r.incompat = false ∧ r.ext = (range.ext || wth.ext) ∧
+    r.notPER = (range.notPER || (!isOer && wth.notPER)) ∧ r.notOER = (range.notOER || wth.ext) := by
+  unfold intersection at h
+  split_ifs at h with h1 h2
+  have hinc : range.incompat = false := by simpa using h1
+  have hfe : ((interFlags range wth isOer).empty || wth.empty) = true := by
+    have : (interFlags range wth isOer).empty = range.empty := by unfold interFlags; split <;> rfl
+    rw [this]; rcases he with he | he <;> simp [he]
+  unfold interCore at h
+  simp only [hfe, if_true, Except.ok.injEq] at h
+  subst h
+  refine ⟨rfl, ?_, ?_, ?_, ?_⟩
+  · show (interFlags range wth isOer).incompat = false
+    rw [← hinc]; unfold interFlags; split <;> rfl
+  · show (interFlags range wth isOer).ext = _
+    unfold interFlags
+    cases isOer with
+    | true => simp at h2; simp [h2.1.1.1, h2.1.2]
+    | false => simp
+  · show (interFlags range wth isOer).notPER = _
+    unfold interFlags
+    cases isOer <;> simp
+  · show (interFlags range wth isOer).notOER = _
+    unfold interFlags
+    cases isOer with
+    | true => simp at h2; simp [h2.1.1.2, h2.1.2]
+    | false => simp
+
+/-- `_range_intersection` + `_range_canonicalize` on operands that may be (flagged) empty -/
+theorem inter_E {range wth r : Range} {A B : Int → Bool} {strict isOer : Bool}
+    (hA : ReprE range A) (hB : ReprE wth B)
+    (h : intersection range wth strict isOer = .ok r) :
+    ReprE (canonicalize r) (fun y => A y && B y) ∧
+    (canonicalize r).ext = (range.ext || wth.ext) ∧
+    (canonicalize r).notPER = (range.notPER || (!isOer && wth.notPER)) ∧
+    (canonicalize r).notOER = (range.notOER || wth.ext) := by
+  obtain ⟨f1, f2, f3, f4, f5⟩ := canonicalize_flags r
+  have viaEmpty : (range.empty = true ∨ wth.empty = true) → (∀ y, (A y && B y) = false) →
+      (ReprE (canonicalize r) (fun y => A y && B y) ∧
+      (canonicalize r).ext = (range.ext || wth.ext) ∧
+      (canonicalize r).notPER = (range.notPER || (!isOer && wth.notPER)) ∧
+      (canonicalize r).notOER = (range.notOER || wth.ext)) := by
+    intro he hs
+    obtain ⟨e1, e2, e3, e4, e5⟩ := intersection_empty he h
+    exact ⟨Or.inr ⟨hs, by rw [f1, e1], by rw [f3, e2]⟩, by rw [f2, e3], by rw [f5, e4], by rw [f4, e5]⟩
+  rcases hA with hA | hA
+  · rcases hB with hB | hB
+    · by_cases hne : ∃ y, A y = true ∧ B y = true
+      · obtain ⟨q1, q2, q3, q4⟩ := inter_canon hA hB hne h
+        exact ⟨Or.inl q1, q2, q3, q4⟩
+      · obtain ⟨i1, i2, i3, _, _, i6, i7, i8, i9⟩ := intersection_spec hA.good hB.good hA.empty hB.empty h
+        have hs : ∀ y, (A y && B y) = false := by
+          intro y
+          cases ha : A y <;> cases hb : B y <;> simp
+          exact hne ⟨y, ha, hb⟩
+        have hnil : r.els = [] := by
+          cases he : r.els with
+          | nil => rfl
+          | cons p t =>
+            exfalso
+            obtain ⟨x, hx⟩ := Iv.wf_nonempty (i2 p (by rw [he]; simp)).1
+            have := i1 x
+            rw [he, hA.den x, hB.den x, hs x] at this
+            simp [hx] at this
+        refine ⟨Or.inr ⟨hs, ?_, by rw [f3, i6]⟩, by rw [f2, i7], by rw [f5, i8], by rw [f4, i9]⟩
+        rw [f1, i3, hnil]; rfl
+    · exact viaEmpty (Or.inr hB.2.1) (fun y => by rw [hB.1 y]; simp)
+  · exact viaEmpty (Or.inl hA.2.1) (fun y => by rw [hA.1 y]; simp)
 
 
 end Asn1c.Impl.CRange
